@@ -235,7 +235,15 @@ func runBridge(r Round) *outcome {
 	}
 
 	for i := 0; i < r.Closers; i++ {
-		rc.spin(kindCloser, "Close", func() { b.Close() })
+		rc.spin(kindCloser, "Close", func() {
+			b.Close()
+			// Close returned => released, for every caller (also one that arrives while the
+			// cleanup - final traffic report - of another caller is in progress)
+			if mine.get() != 1 || !srcConn.IsClosed() {
+				rc.fail("C16/bridge/close-returned-before-cleanup-finished",
+					fmt.Sprintf("a Bridge.Close call returned with cleanup handler run=%d, source conn closed=%v (cloud double mode %d)", mine.get(), srcConn.IsClosed(), cc.mode))
+			}
+		})
 	}
 	if r.p("pathFirst") == 0 {
 		for _, p := range r.Paths {
